@@ -98,7 +98,8 @@ def _worker_chunk(job):
                                           "case": case, "clause": res["clause"],
                                           "detail": res["detail"]})
         if res.get("nontrivial", True) and st != "skip":
-            d = hashlib.blake2b((case_digest(case) + str(res.get("digest", ""))).encode(),
+            d = hashlib.blake2b((case_digest(case) + str(res.get("digest", ""))
+                                 + str(res.get("result_digest", ""))).encode(),
                                 digest_size=8).digest()
             agg["digests"].add(d)
         if kind == "rand" and len(agg["samples"]) < 2 and i < 4:
@@ -163,7 +164,8 @@ def write_replay(P, case, clause, seed, master):
     doc = {
         "property": P.ID, "clause": clause, "seed": seed, "verif_seed": master,
         "case": case, "choices": res.get("choices", {}),
-        "event_digest": res.get("digest"), "detail": res.get("detail"),
+        "event_digest": res.get("digest"), "result_digest": res.get("result_digest"),
+        "detail": res.get("detail"),
         "status": res["status"],
         "repo": seams.repo_root(),
         "how_to_replay": f"./check {P.ID} --replay {path}",
@@ -181,8 +183,16 @@ def replay_file(P, path):
           f"event_digest={res.get('digest')} expected_digest={doc.get('event_digest')}")
     if res["status"] == "violation":
         print("detail:", json.dumps(res["detail"], default=str)[:2000])
-        same = res["clause"] == doc["clause"] and res.get("digest") == doc.get("event_digest")
-        print(f"REPLAY-REPRODUCED clause={res['clause']} exact={same}")
+        same_sched = res.get("digest") == doc.get("event_digest")
+        same_clause = res["clause"] == doc["clause"]
+        if res.get("result_digest") != doc.get("result_digest") or not same_clause:
+            print("note: same recorded schedule, the property is violated again, but with other "
+                  "output values" + ("" if same_clause else f" and through another oracle clause "
+                  f"({res['clause']} instead of {doc['clause']})") + " than when the replay file "
+                  "was written: the defect's output is nondeterministic (e.g. uninitialised "
+                  "memory); the schedule and the violation are what the file reproduces")
+        print(f"REPLAY-REPRODUCED clause={res['clause']} same_clause={same_clause} "
+              f"same_schedule={same_sched}")
         print(f"VIOLATION property={P.ID} replay={path}")
         return 1
     print("REPLAY-NOT-REPRODUCED")
@@ -196,7 +206,9 @@ def confirm_fresh(P, path, clause):
     env.pop("VERIF_REEXEC", None)
     p = subprocess.run([sys.executable, main, P.ID, "--replay", path],
                        capture_output=True, text=True, env=env, timeout=600)
-    ok = p.returncode == 1 and f"REPLAY-REPRODUCED clause={clause} exact=True" in p.stdout
+    # the fresh interpreter must violate the property again under exactly the recorded schedule
+    # (same event log); the clause may differ only for defects with nondeterministic output
+    ok = p.returncode == 1 and "REPLAY-REPRODUCED" in p.stdout and "same_schedule=True" in p.stdout
     return ok, p.stdout[-2000:] + p.stderr[-2000:]
 
 
